@@ -122,10 +122,18 @@ def collectFlags : List Yaml → Bool → R Bool
   | .str s :: rest, acc => collectFlags rest (acc || isCompatFlag s)
   | _ :: _, _ => .error (.config "compat flag".toList)
 
+/-- The text of an option value: a YAML string is used as it is (never its serialised form, which would add quotes
+to strings that look like other YAML types); any other value through its YAML text
+`vstr = serde_yaml::to_string(v).trim()`. -/
+def optText (v : Yaml) (vstr : Str) : Str :=
+  match v with
+  | .str s => s
+  | _ => vstr
+
 /-- `Config::set_option` on a post-YAML value; `vstr` is `serde_yaml::to_string(v).trim()`. -/
 def ConfigM.setOption (c : ConfigM) (cfgPath : Str) (k : Str) (v : Yaml) (vstr : Str) : R ConfigM :=
-  if k = "nodes_uri".toList then .ok { c with nodesPath := withFileName cfgPath vstr }
-  else if k = "classes_uri".toList then .ok { c with classesPath := withFileName cfgPath vstr }
+  if k = "nodes_uri".toList then .ok { c with nodesPath := withFileName cfgPath (optText v vstr) }
+  else if k = "classes_uri".toList then .ok { c with classesPath := withFileName cfgPath (optText v vstr) }
   else if k = "ignore_class_notfound".toList then
     match v with
     | .bool b => .ok { c with ignoreClassNotfound := b }
